@@ -100,6 +100,8 @@ def replay_mode(prop, path):
         rep = json.load(f)
     backend = rep.get("backend", "hist-idn2")
     b = backend.replace("hist-", "")
+    plain = b.endswith("-plain")
+    b = b.replace("-plain", "")
     ndebug = b.endswith("-ndebug")
     b = b.replace("-ndebug", "")
     flags = b.endswith("-flags")
@@ -110,7 +112,7 @@ def replay_mode(prop, path):
         exes = {}
         variant = (rep.get("found") or {}).get("variant", "")
         for bk in ("idn2", "idn", "idnkit"):
-            exes[bk], _ = build.build_hist(bk, extra=(variant == "extra"), ndebug=(variant == "ndebug"))
+            exes[bk], _ = build.build_hist(bk, extra=(variant == "extra"), ndebug=(variant == "ndebug"), flags=(variant == "flags"))
         res = {bk: exec_plans(exes[bk], rep["plans"], log=True) for bk in exes}
         for bk, r in res.items():
             print("--- backend %s: class=%s neutral=%s" % (bk, r["cls"], r["neutral"]))
@@ -120,7 +122,7 @@ def replay_mode(prop, path):
             return 1
         print("replay: backends agree")
         return 0
-    exe, _ = build.build_hist(b, extra=extra, flags=flags, ndebug=ndebug)
+    exe, _ = build.build_hist(b, extra=extra, flags=flags, ndebug=ndebug, plain=plain)
     r = exec_plans(exe, rep["plans"], log=True)
     for l in r["logs"]:
         print("  " + l)
@@ -136,7 +138,18 @@ def handle_candidates(prop, batches, budget=300, limit=4):
     violations, known_lines, nondet = [], [], []
     seen_cls = {}
     for b in batches:
+        unconfirmed = 0
         for c in b.candidates():
+            if b.cfg == "tldsweep":
+                # the sweep only proposes: the ordinary executor and oracle, in a fresh process, decide
+                if unconfirmed >= 6 or not c.get("plan"):
+                    continue
+                r = exec_plans(b.exe, [c["plan"]])
+                if r["cls"] != c["cls"]:
+                    unconfirmed += 1
+                    b.stats = b.stats or {}
+                    b.stats["tld_sweep_candidates_not_confirmed"] = b.stats.get("tld_sweep_candidates_not_confirmed", 0) + 1
+                    continue
             n = seen_cls.get(c["cls"], 0)
             seen_cls[c["cls"]] = n + 1
             if n >= 1 or len(seen_cls) > limit:
@@ -212,6 +225,10 @@ def c13(tier, seed):
     build_info["ndebug_variant"] = "build with -DNDEBUG also run (no allocation faults there: the unchanged tree dereferences NULL)"
     batches.append(Batch("ndebug-nofault", exe4, "C13", "nofault", seed + 5, 3000 if xq else 10**8, 60 if xq else 120, W, samples=False).run())
     batches.append(Batch("ndebug-fault", exe4, "C13", "fault", seed + 5, 3000 if xq else 10**8, 60 if xq else 120, W, samples=False).run())
+    # volume front end for abbreviated-key look-up caches: warm-up over the whole TLD table, then 20 000 unknown labels per plan,
+    # on an optimised build without sanitizer; a discrepancy comes back as an ordinary history plan
+    exe5, _ = build.build_hist("idn2", plain=True)
+    batches.append(Batch("tldsweep", exe5, "C13", "tldsweep", seed + 6, 512 if xq else 10**8, 60 if xq else 240, W, samples=False).run())
     if tier == "thorough":
         # histories of more than 2^16 operations (16-bit counters, thresholds): few, long
         batches.append(Batch("nofault-long", exe, "C13", "nofault-long", seed + 7, 64, 300, W).run())
@@ -371,6 +388,18 @@ def c18(tier, seed):
                 plan = gen_plan(exes_x["idn2"], "C18", cfg, seed + 5, i)
                 st, payload = lockstep_triage("C18", exes_x, plan, {"cfg": cfg, "seed": seed + 5, "index": i, "variant": "extra"})
                 (violations if st == "violation" else nondet).append(payload)
+    # the optional grammar flags (LABELS_ALLOW_UNDERSCORE, RFC6531_FOLLOW_*) compile other code into all three source sets: lock-step there too
+    exes_f = {}
+    for bk in ("idn2", "idn", "idnkit"):
+        exes_f[bk], _ = build.build_hist(bk, flags=True)
+    for cfg in ("lockstep", "lockstep-fault"):
+        bs, ncommon, mism = lockstep_compare("C18", seed + 11, cfg, exes_f, 2500 if tier == "quick" else 10**8, 60, W)
+        batches += list(bs.values())
+        lock_info["flags-" + cfg] = {"plans_compared_across_three_backends": ncommon, "mismatching_plans": len(mism)}
+        for i in mism[:2]:
+            plan = gen_plan(exes_f["idn2"], "C18", cfg, seed + 11, i)
+            st, payload = lockstep_triage("C18", exes_f, plan, {"cfg": cfg, "seed": seed + 11, "index": i, "variant": "flags"})
+            (violations if st == "violation" else nondet).append(payload)
     if tier == "thorough":
         # release configuration (-DNDEBUG) of the three source sets in lock-step
         exes_n = {}
